@@ -3,7 +3,9 @@ import os
 
 from vf import common
 
-CATS = ['app-misc', 'dev-libs', 'sys-apps', 'virtual', 'x11-base']
+CATS = ['app-misc', 'dev-libs', 'sys-apps', 'virtual', 'x11-base',
+        # (names ending like the metadata sub-directories)
+        'net-news', 'app-dtd', 'sec-glsa']
 PKGS = ['foo', 'foo-bin', 'bar', 'bar2', 'libbaz', 'qux-tools', 'zed', '0ad', 'Babel',
         'GConf']
 
